@@ -53,7 +53,9 @@ def expand(src, max_steps=200, info=None):
                 continue
             params = {an for _, an in callee['args']}
             for (kind, an), a in zip(callee['args'], c.children[1:]):
-                if kind in ('macro_match_expr_arg', 'macro_int_expr_arg') and not isinstance(a, lark.Token):
+                # a bare identifier argument is resolved when the call is bound (caller's scope); only identifiers INSIDE a larger
+                # expression/match argument are looked up later, in the callee's dynamic scope
+                if kind in ('macro_match_expr_arg', 'macro_int_expr_arg') and not isinstance(a, lark.Token) and str(a.data) != 'identifier_const':
                     ids = {t.value for t in a.scan_values(lambda v: isinstance(v, lark.Token) and v.type == 'IDENTIFIER')}
                     if ids & params:
                         info['shadowing'] = True
